@@ -6,8 +6,11 @@ from concurrent.futures import ThreadPoolExecutor
 from vcommon import Check, InternalError, ROOT, main_wrapper, run_impl, gz, gnat, glist
 
 NJ = 7            # job universe 0..NJ-1 (the driver knows 8)
-ENDS = ["ok", "exc", "kill_in", "kill_moving", "kill_locked", "kill_exit", "kill_wait"]
-END_W = [34, 24, 12, 8, 4, 10, 8]
+ENDS = ["ok", "exc", "kill_in", "kill_moving", "kill_locked", "kill_exit", "kill_wait", "fail_wait"]
+END_W = [32, 24, 11, 8, 4, 9, 7, 5]
+# order of __exit__ as observed on the implementation (detect_exit_order): False = rmtree(jobs.bak) then wait()
+# (the code as it is, model `step`), True = wait() then rmtree (fixes/C16-1.diff, model `step_late`)
+LATE = [False]
 # what a raising block raises (keys of EXC in the driver): instances of Exception ...
 EXC_ERR = ["error", "error", "oserror", "both", "excgroup"]
 # ... and BaseExceptions that are not Exceptions (sys.exit, Ctrl-C, a closed generator, a cancelled coroutine, ...)
@@ -152,16 +155,27 @@ def run_items(p, run, res, pre):
         items.append(ev("EndOk", p))
         full = sorted(set(jpre) | set(bpre))
         if "exited" in log:
-            items += [ev("RmEntry", p, n) for n in full] + [ev("RmBakDir", p), ev("Done", p)]
+            items += ok_exit_tail(p, full)
+        elif "wait-raise" in log:     # wait() raised: with the code as it is the backup is already gone
+            items += ([] if LATE[0] else [ev("RmEntry", p, n) for n in full] + [ev("RmBakDir", p)]) + [ev("WaitFail", p)]
         else:
             left = names(snap["bak"])
-            items += [ev("RmEntry", p, n) for n in full if n not in left]
-            if snap["bak"] is None:
-                items.append(ev("RmBakDir", p))
+            if not LATE[0] or "waited" in log:
+                items += [ev("WaitOk", p)] if LATE[0] else []
+                items += [ev("RmEntry", p, n) for n in full if n not in left]
+                if snap["bak"] is None:
+                    items.append(ev("RmBakDir", p))
             items.append(ev("Kill", p))
     else:
         items.append(ev("Kill", p))
     return items + [g_obs(snap)]
+
+
+def ok_exit_tail(p, bak_names):
+    """What follows EndOk in an __exit__ that returns: the rmtree entry by entry and the end of wait(), in the
+    order the implementation has them."""
+    rm = [ev("RmEntry", p, n) for n in bak_names] + [ev("RmBakDir", p)]
+    return ([ev("WaitOk", p)] + rm if LATE[0] else rm) + [ev("Done", p)]
 
 
 EMPTY = dict(jobs=[], bak=None, orph=None)
@@ -189,7 +203,7 @@ def case_items(case, res):
         items.append(f"Blocked (Lock {gnat(p2)})")
     items.append(g_obs(res["s_waiting"]))
     if case["leave"] == "ok":
-        items += [ev("EndOk", p1)] + [ev("RmEntry", p1, n) for n in names(held["bak"])] + [ev("RmBakDir", p1), ev("Done", p1)]
+        items += [ev("EndOk", p1)] + ok_exit_tail(p1, names(held["bak"]))
     elif case["leave"] == "exc":
         items.append(ev_exc(p1, res["p1_log"]))
     else:
@@ -197,7 +211,7 @@ def case_items(case, res):
     mid = res["s_p2in"]
     items += [ev("Lock", p2), ev("MkBak", p2)] + [ev("Move", p2, n) for n in names(held["jobs"])] + [ev("Ready", p2), g_obs(mid)]
     items += [ev("Submit", p2, x) for x in subs_of(res["p2_log"])] + [ev("Link", p2, n) for n in names(res["s_end"]["jobs"])]
-    items += [ev("EndOk", p2)] + [ev("RmEntry", p2, n) for n in names(mid["bak"])] + [ev("RmBakDir", p2), ev("Done", p2)]
+    items += [ev("EndOk", p2)] + ok_exit_tail(p2, names(mid["bak"]))
     items.append(g_obs(res["s_end"]))
     return items
 
@@ -208,7 +222,7 @@ def enter_items(p, before, subs, inside):
 
 
 def leave_ok_items(p, inside):
-    return [ev("EndOk", p)] + [ev("RmEntry", p, n) for n in names(inside["bak"])] + [ev("RmBakDir", p), ev("Done", p)]
+    return [ev("EndOk", p)] + ok_exit_tail(p, names(inside["bak"]))
 
 
 def excl3_items(case, res, pre):
@@ -242,6 +256,7 @@ class Oracle:
 
     def __init__(self):
         self.keep = set()      # jobs linked by the last run whose block ended without exception, and by every later run
+        self.keep_w = set()    # jobs linked by the last run that completed (its wait() returned), and by every later run
         self.found = []        # (key, what, run index)
         self.prev = EMPTY      # the index as the previous run left it
 
@@ -272,6 +287,21 @@ class Oracle:
             if bad:
                 self.flag("C16:kept-job-orphan", f"orphans reports {bad}, jobs of the last completed plan / of aborted runs", i)
 
+    def kept_until_completed(self, snap, i, how):
+        """The property with 'completed' read as 'the run's wait() returned': a run whose block ended but which was
+        killed before/while waiting for its jobs, or whose wait() raised, has not completed - the previous plan must
+        still be indexed.  Only what the block-ended reading (self.keep) does not already demand is reported here."""
+        extra = self.keep_w - self.keep
+        have = set(names(snap["jobs"])) | set(names(snap["bak"]))
+        lost = sorted(extra - have)
+        o = snap["orph"]
+        orph = sorted(extra & set(o["orphans"])) if o is not None else []
+        if lost or orph:
+            self.flag("C16:backup-dropped-before-wait",
+                      f"the block of this run ended without exception but the run did not complete ({how}); jobs {lost} of the "
+                      f"last plan whose run completed are in neither jobs/ nor jobs.bak/ (jobs.bak = "
+                      f"{'absent' if snap['bak'] is None else names(snap['bak'])}); orphans reports {orph}", i)
+
     def raised_keeps(self, pre, snap, i, how):
         """If the block raises - whatever it raises - the previous index is kept as backup."""
         gone = sorted(set(names(pre["jobs"])) - set(names(snap["bak"])))
@@ -293,11 +323,18 @@ class Oracle:
         if "exited" in log:
             self.completed(snap, subs, i)
             self.keep = set(subs)
+            self.keep_w = set(subs)
         elif "endblock" in log:
             self.keep = made
+            if "waited" in log:        # wait() returned, the process died later in __exit__: the plan had completed
+                self.keep_w = made
+            else:                      # killed before/while waiting for its jobs, or wait() raised: not completed
+                self.keep_w |= made
         elif "entered" in log:
             self.keep |= made
+            self.keep_w |= made
         self.kept(snap, i)
+        self.kept_until_completed(snap, i, "wait() raised" if "wait-raise" in log else "the process was killed before wait() returned")
         if "raise" in log and "exc-out" in log:
             self.raised_keeps(self.prev, snap, i, "an Exception" if "exc-class error" in log else "not an Exception: sys.exit, KeyboardInterrupt, ...")
         self.prev = snap
@@ -325,7 +362,7 @@ def oracle_case(case, res):
     o.links_ok(res["s_held"], n)
     o.keep |= set(names(res["s_held"]["jobs"])) & set(subs_of(res["p1_log"]))
     o.kept(res["s_waiting"], n)
-    if case["leave"] == "ok":       # the first process's block ended without exception: its plan is the completed one
+    if case["leave"] == "ok":       # the first process's block ended without exception (and its __exit__ returned): its plan is the completed one
         o.keep = set(names(res["s_held"]["jobs"])) & set(subs_of(res["p1_log"]))
     if res["p2_after"] and not res.get("p2_timeout"):
         o.kept(res["s_p2in"], n + 1)
@@ -430,6 +467,19 @@ def drive(c, cases, tag):
     return res
 
 
+def detect_exit_order(c):
+    """Does __exit__ still have its backup when it calls wait()?  Observed on the implementation: a completed run,
+    then a run that dies the moment wait() is called."""
+    case = dict(kind="hist", runs=[dict(mk=[0, 1], rm=[], jobs=[0], end="ok", sync=True, sig=False),
+                                   dict(mk=[], rm=[], jobs=[1], end="kill_wait", sync=True, sig=False)])
+    res = drive(c, [case], "cal")[0]
+    m = machinery_problem(case, res)
+    r = res["runs"][1]
+    if m or "kill wait" not in r["log"]:
+        raise InternalError(f"exit-order calibration failed: {m} {json.dumps(res)[:800]}")
+    return r["snap"]["bak"] is not None
+
+
 def shrink(c, case, key):
     """Greedy: drop runs / jobs while the same violation key is still found (bounded)."""
     if case["kind"] != "hist":
@@ -462,7 +512,7 @@ def run(c: Check):
               "normally (falling off the block, return, break), raising after k submits (Exception subclasses and groups; "
               "non-Exception BaseExceptions: sys.exit(0/1/msg), KeyboardInterrupt, asyncio.CancelledError, a user BaseException, "
               "a BaseExceptionGroup, GeneratorExit of a closed generator), killed after k submits, killed inside __enter__ before/after k moves, "
-              "killed inside __exit__ after k removals or in wait()) plus two-process probes and three-process lock hand-over "
+              "killed inside __exit__ after k removals, when wait() is called or after it returned, wait() raising) plus two-process probes and three-process lock hand-over "
               "probes (A inside, B waiting, A leaves through __exit__, B inside, C or A again contends); non-trivial = a history "
               "with a completed run followed by at least one aborted or killed run, or a probe; distinct by canonical case")
     if "props/C16.v" in (ROOT / "coq" / "_CoqProject").read_text():
@@ -470,6 +520,9 @@ def run(c: Check):
     else:       # not yet listed in _CoqProject: the .vo files were compiled by hand
         c.gate()
     c.props()
+    LATE[0] = detect_exit_order(c)
+    c.extra["exit_order"] = "wait() then rmtree(jobs.bak) (model step_late)" if LATE[0] else "rmtree(jobs.bak) then wait() (model step)"
+    c.count("exit-order:" + ("wait-then-rmtree" if LATE[0] else "rmtree-then-wait"))
     cases = []
     if c.replay:
         rp = json.load(open(c.replay))["replay"]
@@ -529,13 +582,15 @@ def run(c: Check):
             if "exited" in r["log"]:
                 c.count("ok-via:" + run_.get("via", "fall"))
             c.count(f"submits={len(subs_of(r['log']))}")
-            reached = ("exited" if "exited" in r["log"] else "exc" if "raise" in r["log"] else
+            reached = ("exited" if "exited" in r["log"] else "exc" if "raise" in r["log"] else "wait-raise" if "wait-raise" in r["log"] else
                        [l for l in r["log"] if l.startswith("kill")][-1].rstrip(" 0123456789") if any(l.startswith("kill") for l in r["log"]) else "other")
             c.count("reached:" + reached)
             if r["snap"]["bak"] is not None:
                 c.count("backup-present-after-run")
             if set(subs_of(r["log"])) - set(names(r["snap"]["jobs"])) and "entered" in r["log"]:
                 c.count("submitted-without-link-at-abort")
+            if seen_ok and "endblock" in r["log"] and "exited" not in r["log"] and "waited" not in r["log"]:
+                c.count("block-ended-but-run-not-completed-after-a-completed-plan")
             if seen_ok and "exited" not in r["log"]:
                 nontrivial = True
             if "exited" in r["log"]:
@@ -554,7 +609,7 @@ def run(c: Check):
     c.samples = [dict(case=cs, result=rs_) for cs, rs_ in good[:3]]
     header = ("From Coq Require Import ZArith List Bool.\nFrom XV Require Import model.XpIndex corr.XpIndexCorr.\n"
               "Import ListNotations.\nOpen Scope Z_scope.\n")
-    bad = c.corr_shards("corr", header, good, g_case, "check_case", shard=120)
+    bad = c.corr_shards("corr", header, good, g_case, "check_case_late" if LATE[0] else "check_case", shard=120)
     c.extra["disagreeing_cases"] = [dict(case=good[i][0], result=good[i][1]) for i in bad[:4]]
     c.level_assumptions = [
         "fcntl/fasteners inter-process locks are exclusive and die with their process (modelled by Lock/Kill; observed by the two-process probes)",
